@@ -338,4 +338,7 @@ class Cutter(ast.NodeTransformer):
         node = self.generic_visit(node)
         if self.rewrite_literals and not node.elts and isinstance(node.ctx, ast.Load):
             return ast.copy_location(ast.Call(ast.Attribute(ast.Name("__pv", ast.Load()), "new_list", ast.Load()), [], []), node)
+        if self.rewrite_literals and node.elts and isinstance(node.ctx, ast.Load) and not any(isinstance(e, ast.Starred) for e in node.elts):
+            # a non-empty list display: a plain python list unless the sidecar supplies a factory (`literals["list_of"]`)
+            return ast.copy_location(ast.Call(ast.Attribute(ast.Name("__pv", ast.Load()), "new_list_of", ast.Load()), [ast.List(list(node.elts), ast.Load())], []), node)
         return node
